@@ -956,6 +956,11 @@ impl Ctx {
             if is_timeout_or_oom {
                 st.class("INCONCLUSIVE:libfuzzer-timeout-or-oom");
                 eprintln!("[{}] libFuzzer {target}: timeout/oom unit {:?} (inconclusive)", self.id, art);
+            } else if art.is_none() {
+                // the fuzzer process failed without writing a failing unit (sanitizer could not reserve its shadow memory under an
+                // address-space limit, target binary could not start ...): no input of the target's oracle failed - inconclusive
+                st.class("INCONCLUSIVE:libfuzzer-process-failed-without-a-failing-unit");
+                eprintln!("[{}] libFuzzer {target}: process failed without a failing unit (inconclusive): {}", self.id, truncate(&msg, 300));
             } else {
                 st.fail(Fail::new(format!("libfuzzer:{target}:crash"), format!("{msg} | artifact {:?}", art)), json!({"artifact": art, "target": target}));
             }
